@@ -112,3 +112,19 @@ V("c04-dotrot-wrong-axis", "C04", "violation", "C04.R3", edits=[(MA, "    return
 V("c04-n-sez2ecef-as-transpose", "C04", "pass", edits=[(TM, "sez_2_ecef_rotation = matmul(rot3(-lon), rot2(lat - const.PI / 2))", "sez_2_ecef_rotation = matmul(rot2(const.PI / 2 - lat), rot3(lon)).T")])
 V("c04-n-neg-form", "C04", "pass", edits=[(TM, "sez_2_ecef_rotation = matmul(rot3(-lon), rot2(lat - const.PI / 2))", "sez_2_ecef_rotation = matmul(rot3(-lon), rot2(-(const.PI / 2 - lat)))")])
 V("c04-n-matmul-operator", "C04", "pass", edits=[(TM, "r_ecef = matmul(reduction.rot_wt, matmul(reduction.rot_rnp, x_eci[:3]))", "r_ecef = reduction.rot_wt @ (reduction.rot_rnp @ x_eci[:3])")])
+
+# ------------------------------------------------------------------------------------ C06
+UK = "estimation/kalman/unscented_kalman_filter.py"
+V("c06-revert-F5-stale-xres", "C06", "violation", "C06.R1", revert="aa5567c")
+V("c06-predict-substeps-swapped", "C06", "violation", "C06.R1", edits=[(UK, "        self.predictStateEstimate(final_time, scheduled_events=scheduled_events)\n\n        # STEP 2: Calculate the predicted covariance at t(k) (P(k + 1|k))\n        self.predictCovariance(final_time)\n", "        self.predictCovariance(final_time)\n\n        # STEP 2: Calculate the predicted covariance at t(k) (P(k + 1|k))\n        self.predictStateEstimate(final_time, scheduled_events=scheduled_events)\n")])
+V("c06-resample-after-measurement-matrix", "C06", "violation", "C06.R1", edits=[(UK, "        # STEP 1: Calculate the Measurement Matrix (H)\n        self.calculateMeasurementMatrix(observations)\n", "        # STEP 1: Calculate the Measurement Matrix (H)\n        self.calculateMeasurementMatrix(observations)\n        if self._resample:\n            self.sigma_points = self.generateSigmaPoints(self.pred_x, self.pred_p)\n            self.sigma_x_res = self.sigma_points - self.sigma_points[:, :1]\n")])
+V("c06-posterior-sign", "C06", "violation", "C06.R1", edits=[(UK, "self.est_p = self.pred_p - self.kalman_gain.dot(self.innov_cvr.dot(self.kalman_gain.T))", "self.est_p = self.pred_p + self.kalman_gain.dot(self.innov_cvr.dot(self.kalman_gain.T))")])
+V("c06-innov-cvr-without-R", "C06", "violation", "C06.R1", edits=[(UK, "self.sigma_y_res.dot(self.cvr_weight.dot(self.sigma_y_res.T)) + self.r_matrix", "self.sigma_y_res.dot(self.cvr_weight.dot(self.sigma_y_res.T))")])
+V("c06-noobs-uses-pred-x", "C06", "violation", "C06.R2", edits=[(UK, "            self.est_x = self.sigma_points[:, 0]\n", "            self.est_x = self.pred_x + self.kalman_gain.dot(self.innovation)\n")])
+V("c06-noobs-covariance-est-p", "C06", "violation", "C06.R2", edits=[(UK, "            self.est_p = self.pred_p\n        else:", "            self.est_p = self.pred_p - self.kalman_gain.dot(self.innov_cvr.dot(self.kalman_gain.T))\n        else:")])
+V("c06-rmatrix-sorted", "C06", "violation", "C06.R3", edits=[(UK, "block_diag(*[ob.r_matrix for ob in observations])", "block_diag(*[ob.r_matrix for ob in sorted(observations, key=lambda o: o.sensor_id)])")])
+V("c06-update-minus-gain", "C06", "violation", "C06.R3", edits=[(UK, "self.est_x = self.pred_x + self.kalman_gain.dot(self.innovation)", "self.est_x = self.pred_x - self.kalman_gain.dot(self.innovation)")])
+V("c06-weight-formula", "C06", "violation", "C06.R4", edits=[(UK, "weight = 1 / (2.0 * (lambda_kf + self.x_dim))", "weight = 1 / (2.0 * lambda_kf + self.x_dim)")])
+V("c06-cvr-weight-correction", "C06", "violation", "C06.R4", edits=[(UK, "self.cvr_weight[0, 0] += 1 - alpha**2.0 + beta", "self.cvr_weight[0, 0] += 1 - alpha**2.0 - beta")])
+V("c06-n-recompute-residuals-always", "C06", "pass", edits=[(UK, "        if self._resample:\n            self.sigma_points = self.generateSigmaPoints(self.pred_x, self.pred_p)\n            # The re-sampled points", "        if self._resample:\n            self.sigma_points = self.generateSigmaPoints(self.pred_x, self.pred_p)\n            # the re-sampled points"), (UK, "            self.sigma_x_res = self.sigma_points - self.sigma_points[:, :1]\n\n        # STEP 1", "        self.sigma_x_res = self.sigma_points - self.sigma_points[:, :1]\n\n        # STEP 1")])
+V("c06-n-commuted-sum", "C06", "pass", edits=[(UK, "self.est_x = self.pred_x + self.kalman_gain.dot(self.innovation)", "self.est_x = self.kalman_gain.dot(self.innovation) + self.pred_x")])
